@@ -19,7 +19,7 @@ import os
 
 from lib import common, tlc, goharness
 from lib.common import Result, Violation, InfraError
-from props._configtxn import _lock_subdir, _short_val, split_cases
+from props._configtxn import _lock_subdir, _short_val, split_cases, negative_control
 
 ACTIONS = ["Begin", "Set", "Unset", "Get", "Commit"]
 OVERLAY = os.path.join(common.HARNESS, "overlay", "registrystate", "zz_verif_registry_test.go")
@@ -40,6 +40,8 @@ def rule_str(d):
 
 def op_str(ev):
     e = ev["ev"]
+    if e == "Panic":
+        return "PANIC in real code during %s(t%s): %s" % (ev.get("op"), ev.get("t"), str(ev.get("msg"))[:120])
     res = ("->" + _short_res(ev["res"])) if "res" in ev else ""
     if e == "Reset":
         return "View(" + " | ".join(rule_str(d) for d in ev.get("view", [])) + ")"
@@ -133,12 +135,14 @@ def confirm_and_report(ctx, tb, chunk, tv, violations, source):
         raise InfraError("rejection of case %s at %s did not reproduce when the case was re-run alone" % (
             bad.get("case"), op_str(bad)))
     rerun = common.read_ndjson(out)
+    if rerun and rerun[-1]["ev"] == "Panic":
+        rerun[-1] = dict(script[len(rerun) - 1], **{"ev": "Panic", "op": rerun[-1]["op"], "msg": rerun[-1]["msg"]})
     k = min(tv2["stuck_line"], len(rerun))
     bad2 = rerun[k - 1]
     hist = " ; ".join(op_str(e) for e in rerun[:k])
     hid = hashlib.sha1(json.dumps(script[:-1], sort_keys=True).encode()).hexdigest()[:10]
-    key = "registryview %s in %s after %d ops [%s]" % (
-        op_str(to_script_op(bad2)), op_str(rerun[0]), max(len(script) - 2, 0), hid)
+    what = ("PANIC in " + op_str(script[-1])) if bad2["ev"] == "Panic" else op_str(to_script_op(bad2))
+    key = "registryview %s in %s after %d ops [%s]" % (what, op_str(rerun[0]), max(len(script) - 2, 0), hid)
     violations.append(Violation(
         key=key, desc="%s (%s): %s. History on the real code: %s" % (key, source, _why(tv2), hist),
         replay={"script": script, "observed": rerun[-2:], "tlc": tv2["res"].summary(), "why": _why(tv2)}))
@@ -207,7 +211,7 @@ def run_state_level(ctx, violations):
     d = ctx.subdir("statelevel")
     out = os.path.join(d, "state.ndjson")
     rc, o = goharness.run_test_bin(ctx, tb, "TestVerifRegistryState", cwd=os.path.join(common.REPO, "overlord/registrystate"),
-                                   env={"VERIF_OUT": out, "VERIF_N": ctx.pick(40, 1500), "VERIF_LEN": 10}, timeout=1200)
+                                   env={"VERIF_OUT": out, "VERIF_N": ctx.pick(40, 600), "VERIF_LEN": 10}, timeout=1200)
     goharness.check_driver(rc, o, "registrystate overlay driver")
     rows = common.read_ndjson(out)
     cases = split_cases(rows)
@@ -292,8 +296,7 @@ def run(ctx):
                                       "wall_s": round(mc.wall, 1)}}
     ctx.log("design quick: %s wall=%.0fs" % (mc.summary(), mc.wall))
     if not ctx.quick:
-        for mod, cfg, to in (("RegistryViewMC2", "RegistryView_mc_thorough.cfg", 3000),
-                             ("RegistryViewMC", "RegistryView_mc_deep.cfg", 3000)):
+        for mod, cfg, to in (("RegistryViewMC2", "RegistryView_mc_thorough.cfg", 3000),):
             m2 = tlc.run(ctx, mod, cfg, workers=W, timeout=to, heap="16g", name="mc_" + cfg[16:-4])
             if not m2.ok:
                 raise InfraError("spec-level counterexample in RegistryView (%s): %s" % (cfg, m2.summary()))
@@ -303,7 +306,7 @@ def run(ctx):
             transitions += m2.generated
             ctx.log("design %s: %s wall=%.0fs" % (cfg, m2.summary(), m2.wall))
 
-    nsim = ctx.pick(40, 1500)
+    nsim = ctx.pick(40, 300)
     sim = tlc.run(ctx, "RegistryViewMC2", "RegistryView_sim.cfg", simulate={"num": nsim, "file": True}, depth=22,
                   seed=ctx.seed, workers=1, timeout=ctx.pick(600, 2400), name="sim")
     if not sim.ok:
@@ -317,7 +320,7 @@ def run(ctx):
     # ---- 2. conformance --------------------------------------------------------------------
     d = ctx.subdir("traces")
     out_r = os.path.join(d, "random.ndjson")
-    run_driver(ctx, tb, out_r, {"VERIF_N": ctx.pick(100, 6000), "VERIF_LEN": ctx.pick(20, 24)})
+    run_driver(ctx, tb, out_r, {"VERIF_N": ctx.pick(100, 2000), "VERIF_LEN": ctx.pick(20, 24)})
     sp = os.path.join(d, "tlc_script.ndjson")
     common.write_ndjson(sp, script)
     out_s = os.path.join(d, "replayed.ndjson")
@@ -334,6 +337,10 @@ def run(ctx):
     ctx.log("I->T: %d cases, %d lines, %d accepted; T->I: %d behaviours, %d lines, %d accepted" % (
         len(cases_r), len(rows_r), acc_r, len(cases_s), len(rows_s), acc_s))
 
+    negctl = (negative_control(ctx, cases_r, "TraceRegistryView", "TraceRegistryView.cfg")
+              if not violations else "skipped")
+    ctx.log("negative control: %s" % negctl)
+
     # ---- 3. state level --------------------------------------------------------------------
     rows_st, ncases_st = run_state_level(ctx, violations)
     ctx.log("state level: %d cases, %d lines" % (ncases_st, len(rows_st)))
@@ -347,6 +354,8 @@ def run(ctx):
         e = r["ev"]
         if e == "Reset":
             views.add(json.dumps(r["view"], sort_keys=True))
+            continue
+        if e == "Panic":
             continue
         k = e.lower() + ("_" + r["res"]["k"] if "res" in r else "")
         if e == "Commit" and r["res"]["k"] == "ok":
@@ -375,13 +384,14 @@ def run(ctx):
         "distinct_views_on_real_code": len(views),
         "distinct_abstract_states_reached_by_real_code": len(abstract),
         "real_event_classes": dict(sorted(cls.items())),
+        "negative_control": negctl,
         "design_runs": design,
         "action_coverage": tlc.coverage_summary(mc),
         "tlc_constants": {
             "quick": "10 curated views (all 10 rule shapes, nesting, 3 access modes) x 2 txns x (Begin + <=2 ops), "
                      "15 set / 7 unset / 3 get requests",
-            "thorough": "every valid view of <=2 shapes x accesses; curated views x (Begin + <=3 ops) with 32 set / 12 "
-                        "unset requests",
+            "thorough": "every single shape x access and every interacting pair of shapes x accesses (~170 views), "
+                        "same request menus and depth",
             "simulation": "valid views of <=3 shapes, full menus, depth 22",
             "trace": "random views of 1..3 shapes, random requests/values (depth <=2, nested nulls), 2 txns"},
         "samples": samples,
